@@ -316,24 +316,36 @@ func opGroupAndMeta(r *rand.Rand, scenarios int) {
 			emit(op, fmt.Sprintf("%d/%s/%s", res.Controller.ID, strings.Join(bs, ","), dash(strings.Join(ts, "|"))))
 		}
 
-		// ---- Conn.ReadPartitions (metadata v1 or v6 by negotiation)
-		for i := 0; i < 3; i++ {
+		// ---- Conn.ReadPartitions (metadata v1 or v6 by negotiation; with and without a connection topic; topic errors)
+		for i := 0; i < 5; i++ {
 			b := c.Brokers[boot]
 			b.Versions = nil
-			if i == 1 {
+			if i%2 == 1 {
 				b.Versions = map[protocol.ApiKey]fakecluster.VRange{protocol.Metadata: {Min: 0, Max: 3}}
 			}
+			c.Lock()
+			for _, n := range known { // a topic-level error now and then
+				c.Topics[n].Err = 0
+				if r.Intn(7) == 0 {
+					c.Topics[n].Err = int16([]int{5, 29}[r.Intn(2)])
+				}
+			}
+			c.Unlock()
 			var topics []string
-			for k := 0; k < r.Intn(4); k++ { // no topic at all = every topic of the cluster (null array on the wire)
+			for k := 0; k < r.Intn(4); k++ { // no topic at all = the connection's topic, or every topic of the cluster (null array on the wire)
 				topics = append(topics, known[r.Intn(len(known))])
+			}
+			connTopic := ""
+			if r.Intn(2) == 0 {
+				connTopic = known[r.Intn(len(known))]
 			}
 			c.Lock()
 			enc := encCluster(c)
 			c.Unlock()
-			conn := kafka.NewConn(c.Pipe(boot), "", 0)
+			conn := kafka.NewConn(c.Pipe(boot), connTopic, 0)
 			conn.SetDeadline(time.Now().Add(10 * time.Second))
 			parts, err := conn.ReadPartitions(topics...)
-			op := fmt.Sprintf("rparts %s %s", dashAll(topics), enc)
+			op := fmt.Sprintf("rparts %s %s %s", dash(connTopic), dashAll(topics), enc)
 			if err != nil {
 				emit(op, fmt.Sprintf("err %d", errCode(err)))
 			} else {
@@ -346,6 +358,11 @@ func opGroupAndMeta(r *rand.Rand, scenarios int) {
 			}
 			conn.Close()
 		}
+		c.Lock()
+		for _, n := range known {
+			c.Topics[n].Err = 0
+		}
+		c.Unlock()
 		tr.CloseIdleConnections()
 		c.Close()
 	}
